@@ -142,6 +142,23 @@ def Stream.crypting (s : Stream) : Bool := s.key.isSome && s.encrypted
 
 def hdrBytes (flag len : Nat) : Bytes := UInt8.ofNat flag :: be32 len
 
+/-- the first five bytes of a frame as `ReceiveFrame*` reads them -/
+def parseHdr : Bytes → Option (Nat × Nat × Bytes)
+  | f :: a :: b :: c :: d :: rest => some (f.toNat, beVal [a, b, c, d], rest)
+  | _ => none
+
+/-- a cleartext frame as bytes, and its parse (header checks included) -/
+def encodeRawFrame (flag : Nat) (payload : Bytes) : Bytes := hdrBytes flag payload.length ++ payload
+
+def decodeRawFrame (b : Bytes) : Except Err (Nat × Bytes × Bytes) :=
+  match parseHdr b with
+  | none => .error .eof
+  | some (flag, len, rest) =>
+    if len > maxMessageSize then .error .tooLarge
+    else if flag > maxEndFlag then .error .badFlag
+    else if rest.length < len then .error .eof
+    else .ok (flag, rest.take len, rest.drop len)
+
 def Stream.finalizeDigests (s : Stream) : Stream := { s with dig := s.dig.finalize }
 
 /-- `SetSymmetricKey`: installs the key, draws a fresh base IV (a parameter: one RNG draw),
